@@ -652,8 +652,12 @@ func (f *frame) execNext(in *ssa.Next, st *State) {
 		st.heaps[keyH] = c.define("seenkey", fmt.Sprintf("(Array Int %s)", ks), fmt.Sprintf("(ite %s (store %s %s %s) %s)", okv, key, n, k, key))
 		st.heaps[posH] = c.define("seenpos", fmt.Sprintf("(Array %s Int)", ks), fmt.Sprintf("(ite %s (store %s %s %s) %s)", okv, pos, k, n, pos))
 		st.heaps[nH] = c.define("seenn", SInt, fmt.Sprintf("(ite %s (+ %s 1) %s)", okv, n, n))
+		// Go: a range over a map that was not modified meanwhile produces each of its len(m) entries exactly once, so when
+		// the iteration ends the number of produced keys is the size of the map (part of the range-over-map assumption)
+		domNow := fmt.Sprintf("(ite (= %s nil) ((as const (Array %s Bool)) false) (select %s %s))", rs.x.T, ks, st.Heap(dom), rs.x.T)
+		c.assume(st, fmt.Sprintf("(=> (and (not %s) (= %s %s)) (= %s (ite (= %s nil) 0 (%s %s))))", okv, domNow, rs.dom0, n, rs.x.T, g.cardFn(ks), rs.dom0))
 	}
-	c.assumed["range over a map produces every entry that was present when the loop started and is still present, exactly once, in arbitrary order (Go spec); entries deleted and re-inserted during the loop are not modelled"] = true
+	c.assumed["range over a map produces every entry that was present when the loop started and is still present, exactly once, in arbitrary order, hence len(m) entries when the map is not modified meanwhile (Go spec); entries deleted and re-inserted during the loop are not modelled"] = true
 	vterm := c.define(valName(in)+"_v", g.TE.SortOf(mt.Elem()), fmt.Sprintf("(select (select %s %s) %s)", st.Heap(val), rs.x.T, k))
 	c.assume(st, c.wellFormed(vterm, mt.Elem(), st.next))
 	c.assume(st, c.wellFormed(k, mt.Key(), st.next))
@@ -664,12 +668,18 @@ func (f *frame) execNext(in *ssa.Next, st *State) {
 // mapLen is the term for len(m) of a map: the cardinality of its key set (uninterpreted, >= 0).
 func (g *Gen) mapLen(mt types.Type, m string, view HeapView) string {
 	dom, _, ks, _ := g.TE.MapHeaps(mt)
+	name := g.cardFn(ks)
+	return fmt.Sprintf("(ite (= %s nil) 0 (%s (select %s %s)))", m, name, view.Heap(dom), m)
+}
+
+// cardFn declares (once) the cardinality function of key sets of sort ks.
+func (g *Gen) cardFn(ks string) string {
 	name := "card_" + sanitize(ks)
 	if _, ok := g.ufDecl[name]; !ok {
 		g.UF(name, []string{fmt.Sprintf("(Array %s Bool)", ks)}, SInt)
 		g.axioms = append(g.axioms, fmt.Sprintf("(assert (forall ((s (Array %s Bool))) (! (>= (%s s) 0) :pattern ((%s s)))))", ks, name, name))
 	}
-	return fmt.Sprintf("(ite (= %s nil) 0 (%s (select %s %s)))", m, name, view.Heap(dom), m)
+	return name
 }
 
 
